@@ -6,8 +6,8 @@ PROP = dict(
     # the model IS the specification for these ops: the TL rules applied to the schema text carried in the line
     info_ops=("tl.crcid",),  # id spelled in the schema vs CRC-32 of the declaration text: outside C10 (the property speaks of the id given in the schema line); reported in the evidence only
     spec_ops=("tl.enc", "tl.dec", "tl.fenc", "tl.fdec", "tl.req", "tl.ans", "tl.reqdec", "tl.schema",
-              "tl.hw."),
-    rule="for every declaration of lite_api.tl (45 types: single-constructor types through their bare constructor, "
+              "tl.hw.", "tl.wait."),
+    rule="for every declaration of lite_api.tl (45 constructors of 43 types: single-constructor types through their bare constructor, "
          "multi-constructor types and the hand-written liteServer.SignatureSet boxed; 29 functions: parameter struct, "
          "client method against a stub connection, answers, request decoder): schema-directed random values with all "
          "subsets of the tested mode bits enumerated in turn (+ random untested bits), byte strings biased to "
@@ -60,32 +60,49 @@ PROP = dict(
         "from them (+ any trailing bytes). Not proved: that MarshalTL refuses what the schema refuses (Go types make "
         "most of it unrepresentable; byte strings of 2^24 bytes and more: ops go.tl.toolong), and what UnmarshalTL does "
         "on bytes that are not an encoding",
-        "liteServerRequest / the envelope: request_envelope is about the hand model `envelope` (tied by op tl.req "
-        "against the stub connection); X7 does not extract client.go",
+        "liteServerRequest / the envelope: request_envelope is about the hand model `envelope` (tied by ops tl.req, "
+        "tl.wait.* against the stub connection); of client.go X7 extracts the two Wait methods only (the envelope "
+        "magics magicADNLQuery / magicADNLAnswer / magicLiteServerQuery are pinned by the ops and by "
+        "ctor_id_is_crc32_client_constants on the hand constants; the tcp.* magics of connection.go belong to C11)",
+        "malformed input: the ops tl.dec / tl.fdec / tl.ans / tl.reqdec also carry encodings with ONE malformed leaf "
+        "(length prefix 255, escape form for a short string, non-zero padding, length past the data, unknown Bool "
+        "magic); the specification (C09.tl_decode_malformed) REFUSES prefix 255 and unknown Bool magics, ACCEPTS the "
+        "non-canonical escape form and does not inspect padding content (so does Go; a sender must write zeros) - "
+        "decided from the TL rules, which define the one-byte form and the escape 254 only and give Bool two ids; "
+        "other malformed input (truncations inside values, oversized counts) is C08's",
+        "liteapi/models.go (table of `<Constructor>Tag` constants, unused inside the repository) is compared with the "
+        "schema ids by the input-free oracle go.tl.tagtable only (4 stale constants repaired, commit 6cd6d39)",
         "X6 (generator output == checked-in generated.go / integers.go after gofmt) is an input-free comparison of two "
         "artefacts, evaluated by go.regen.*; no theorem",
         "tl_spec_builtin / tl_spec_length_escape / tl_spec_composite and the encode conjuncts of tl_spec_padding (C09) "
         "restate the definition of the specification in bytes; they say nothing about Go",
     ],
     level="proof",
-    level_text="THEOREMS ABOUT THE GO BINDINGS (as extracted by translator X7, regenerated on every run): "
+    level_text="THEOREMS ABOUT THE GO BINDINGS (as extracted by translator X7, regenerated on every run; they cover field "
+               "order, guards, flag bits, tag / request-id literals, NOT the byte layout of the builtin leaves: uint32/"
+               "uint64/Int256/[]byte/string/bool/vector count are written and read in the step semantics by the "
+               "specification's own le/encBytes/readLE/readBytes - the reflection code of tl/encoder.go, tl/decoder.go is "
+               "tied by the executed ops only, except tl.EncodeLength which X4 extracts: gen_EncodeLength): "
                "steps_eq_schema (stated in TongoProofs.C09, generic) - proved once for every schema S and bindings value B accepted by the decidable "
                "matcher agreeAll: for every type and every value the schema encodes, the MarshalTL step sequences "
                "write exactly Tl.encode and the UnmarshalTL step sequences read it back leaving any trailing bytes; "
-               "instantiated at the current generated.go / lite_api.tl by 75 kernel-decided obligations (one per type "
-               "and per function: Gen.bind_type_i, Gen.bind_func_i -> Gen.bindings_agree), giving "
+               "instantiated at the current generated.go / lite_api.tl by 72 kernel-decided obligations (43 types + 29 "
+               "functions: Gen.bind_type_i, Gen.bind_func_i -> Gen.bindings_agree; + Gen.wait_consts_agree for the "
+               "hand-written Wait methods of client.go), giving "
                "liteapi_steps_eq_schema, liteapi_client_request (request-id literal + request struct = encodeRequest), "
                "liteapi_client_answer (error literal tested first, result literal / sum switch), "
-               "liteapi_decoder_table (taggedRequestDecodeFunctions). A wrong mode bit, swapped fields, a wrong tag or "
+               "liteapi_decoder_table (taggedRequestDecodeFunctions); liteapi_wait_seqno / liteapi_wait_block (hand-written "
+               "(*Client).WaitMasterchainSeqno / WaitMasterchainBlock of client.go, both bodies shape-matched by X7, the "
+               "prefix id = CRC-32 of its declaration: wait_prefix_id_is_crc32). A wrong mode bit, swapped fields, a wrong tag or "
                "request id in ONE generated method breaks the obligation of that declaration (checked with seeds C10-3, "
                "C10-5 and five own mutations). THEOREMS ABOUT THE SPECIFICATION: round trip / prefix-freeness of the TL "
                "schema semantics for every well-formed schema (C09), instantiated at the regenerated schema (wf_liteapi "
                "by kernel evaluation); request envelope; request decoder; answers for every function "
                "(liteapi_answer_decodes); ids = CRC-32 of the declaration text (ctor_id_is_crc32, regenerated kernel "
-               "obligation). HAND MODELS: ton.AccountID / ton.BlockIDExt / tl.Int256 codecs, both directions. Of the 31 "
-               "theorems of TongoProofs.C10, 13 are closed facts about the regenerated schema / bindings (kernel "
+               "obligation). HAND MODELS: ton.AccountID / ton.BlockIDExt / tl.Int256 codecs, both directions. Of the 36 "
+               "theorems of TongoProofs.C10, 16 are closed facts about the regenerated schema / bindings (kernel "
                "evaluated instances - they are the obligations that change with the repository), 2 "
-               "(handwritten_types_spec/_decode) are binder-free conjunctions of universally quantified clauses, 16 are "
+               "(handwritten_types_spec/_decode) are binder-free conjunctions of universally quantified clauses, 18 are "
                "universally quantified. TESTED TIE (kept in full): every generated type, request struct, client method (against a stub "
                "connection), answer path and the request decoder of the real Go code is executed on schema-directed "
                "random values and compared with the specification; this also covers what X7 does not extract (reflection "
